@@ -49,10 +49,13 @@ func c08Sig(s string) os.Signal {
 func c08Cases() []c08Case {
 	var cs []c08Case
 	for _, sig := range []string{"TERM", "HUP", "INT", "QUIT", "USR1"} {
-		for _, sc := range []string{"serve-e2e", "after-reinit", "final-ra-fails", "idle", "pending-delay", "rs-at-stop", "periodic-due", "armed-write-2", "armed-write-2-fails", "armed-write-2-enobufs", "armed-write-3-unicast", "armed-fwd-3", "armed-write-1", "armed-reinit-initial", "link-change-at-stop", "fwd-off-then-stop"} {
+		for _, sc := range []string{"serve-e2e", "after-reinit", "final-ra-fails", "idle", "pending-delay", "rs-at-stop", "periodic-due", "armed-write-2", "armed-write-2-fails", "armed-write-2-enobufs", "armed-write-3-unicast", "armed-fwd-3", "armed-write-1", "armed-reinit-initial", "link-change-at-stop", "fwd-off-then-stop", "watcher-halts-at-stop", "serve-e2e-two-signals"} {
 			// every signal but SIGHUP terminates; the less common ones on two scripts
 			if (sig == "QUIT" || sig == "USR1") && sc != "idle" && sc != "serve-e2e" {
 				continue
+			}
+			if sc == "serve-e2e-two-signals" && (sig == "HUP" || sig == "QUIT" || sig == "USR1") {
+				continue // a terminating signal FOLLOWED by SIGHUP; see the driver
 			}
 			if sig == "INT" && sc != "armed-write-3-unicast" && sc != "idle" && sc != "serve-e2e" && sc != "after-reinit" && sc != "final-ra-fails" {
 				continue
@@ -85,7 +88,7 @@ func c08Scenario(c c08Case) *vsched.Scenario {
 			cfg.Plugins = []plugin.Plugin{plugin.NewMTU(1480), &plugin.DNSSL{Lifetime: time.Hour, DomainNames: []string{"example.com"}},
 				&plugin.Prefix{Auto: true, Prefix: netip.MustParsePrefix("::/64"), OnLink: true, Autonomous: true, ValidLifetime: time.Hour, PreferredLifetime: time.Minute}}
 			system.VerifSetAddresser(c08Addresser{start: time.Now()})
-			a = newAdvWorld(cfg, true, c.Script == "after-reinit" || c.Script == "armed-reinit-initial" || c.Script == "link-change-at-stop")
+			a = newAdvWorld(cfg, true, c.Script == "after-reinit" || c.Script == "armed-reinit-initial" || c.Script == "link-change-at-stop" || c.Script == "watcher-halts-at-stop")
 			a.latency = c.Latency
 			stop := func() {
 				a.term.set(c08Sig(c.Sig))
@@ -157,13 +160,13 @@ func c08Scenario(c c08Case) *vsched.Scenario {
 					}
 				}
 			}
-			if c.Script == "serve-e2e" {
+			if c.Script == "serve-e2e" || c.Script == "serve-e2e-two-signals" {
 				// End to end: the real Server.Serve supervises the real advertiser and
 				// the signal arrives through the real signal task, whose ordering of
 				// "record terminate/reload" and "cancel" decides the final RA.
 				srv := NewServer(a.cctx)
 				srv.t = a.term
-				sigC := make(chan os.Signal, 1)
+				sigC := make(chan os.Signal, 2)
 				x.Spawn("serve", func() {
 					err := srv.Serve(sigC, &sdnotify.Notifier{}, []Task{a.adv})
 					a.runMu.Lock()
@@ -178,6 +181,11 @@ func c08Scenario(c c08Case) *vsched.Scenario {
 					vsched.Obs("stop", "%s", c.Sig)
 					stopAt = a.now()
 					vsched.Send("harness:signal", sigC, c08Sig(c.Sig))
+					if c.Script == "serve-e2e-two-signals" {
+						// An impatient operator: the terminating signal is followed at once by a
+						// SIGHUP. The daemon was told to terminate and does (final RA).
+						vsched.Send("harness:signal", sigC, os.Signal(syscall.SIGHUP))
+					}
 					vsched.Sleep(5 * time.Second)
 					x.Finish()
 				})
@@ -222,6 +230,14 @@ func c08Scenario(c c08Case) *vsched.Scenario {
 					vsched.Sleep(2 * time.Second)
 					vsched.Mark()
 					vsched.Recv("harness:armed", arm)
+					stop()
+				case "watcher-halts-at-stop":
+					// What the daemon's own stop looks like to a task: its context is cancelled
+					// and the link watcher, stopping too, closes the subscription channel - in
+					// either order. No link changed: the final RA is due as always.
+					vsched.Sleep(1500 * time.Millisecond)
+					vsched.Mark()
+					vsched.Close("harness:watcher-halts", a.watchC)
 					stop()
 				case "fwd-off-then-stop":
 					// RAs with the configured lifetime went out while the interface was
